@@ -357,7 +357,8 @@ class BoxCox2(Transform):
     def _forward(self, x):
         nu, lam = self.params.values
         if abs(lam) > EPS:
-            return (np.power(x + nu, lam) - 1) / lam
+            # expm1 avoids the cancellation in (z^lam-1) when lam is small
+            return np.expm1(lam * np.log(x + nu)) / lam
         else:
             return np.log(x + nu)
 
@@ -365,8 +366,8 @@ class BoxCox2(Transform):
         nu, lam = self.params.values
 
         if abs(lam) > EPS:
-            u = lam * y + 1
-            return np.power(u, 1. / lam) - nu
+            # log1p avoids the loss of precision in (lam*y+1) when lam is small
+            return np.exp(np.log1p(lam * y) / lam) - nu
         else:
             return np.exp(y) - nu
 
